@@ -2,6 +2,7 @@ package main
 
 import (
 	"context"
+	"fmt"
 	"sync"
 	"time"
 
@@ -141,6 +142,74 @@ func c18ElectrumInversion(role string) (bool, string) {
 	return true, st
 }
 
+// c18BusyObserver: the REAL RPC watcher with its REAL block dispatcher (StartWatchingTxs / StartBlockWatcher polling
+// the scripted RPC).  A taker's confirmation callback is still running (it pays an invoice) when the next block
+// arrives; afterwards the CSV of a maker's watch on the same watcher matures.  Returns whether the maturity was
+// reported in time.
+func c18BusyObserver(callbackTakes time.Duration) (reported bool, confirmations int) {
+	rpc := &fakeRpc{}
+	var mu sync.Mutex
+	height := uint64(800000)
+	confT, confM := uint32(0), uint32(1000)
+	rpc.byTx = func(txid string) (*txwatcher.TxOutResp, error) {
+		mu.Lock()
+		defer mu.Unlock()
+		c := confT
+		if txid == "maker-opening" {
+			c = confM
+		}
+		return &txwatcher.TxOutResp{BestBlockHash: hashOf(uint32(height)), Confirmations: c}, nil
+	}
+	setHeight := func(h uint64, ct, cm uint32) {
+		mu.Lock()
+		height, confT, confM = h, ct, cm
+		mu.Unlock()
+		rpc.mu.Lock()
+		rpc.v.rpcHeight = h
+		rpc.mu.Unlock()
+	}
+	rpc.set(rpcView{rpcHeight: height})
+	ctx, cancel := context.WithCancel(context.Background())
+	defer cancel()
+	rw := txwatcher.NewBlockchainRpcTxWatcher(ctx, rpc, 3)
+	confCh, csvCh := make(chan bool, 4), make(chan bool, 4)
+	rw.AddConfirmationCallback(func(swapId, txHex string, err error) error {
+		time.Sleep(callbackTakes) // the swap validates the transaction and pays the claim invoice
+		confCh <- err == nil
+		return nil
+	})
+	rw.AddCsvCallback(func(swapId string) error { csvCh <- true; return nil })
+	rw.StartWatchingTxs()
+	rw.AddWaitForConfirmationTx("taker-swap", "taker-opening", 0, 800000, 504, nil)
+	rw.AddWaitForCsvTx("maker-swap", "maker-opening", 0, 800000, 1008, nil)
+	// block 800001: the taker's opening transaction has its three confirmations
+	setHeight(800001, 3, 1001)
+	time.Sleep(callbackTakes / 2)
+	// block 800002 arrives while the callback is still running
+	setHeight(800002, 4, 1002)
+	select {
+	case <-confCh:
+		confirmations++
+	case <-time.After(callbackTakes + 3*time.Second):
+	}
+	// the maker's CSV matures a few blocks later
+	for k := uint64(3); k <= 9; k++ {
+		setHeight(800000+k, uint32(2+k), uint32(1000+k))
+		time.Sleep(650 * time.Millisecond)
+		select {
+		case <-csvCh:
+			return true, confirmations
+		default:
+		}
+	}
+	select {
+	case <-csvCh:
+		return true, confirmations
+	case <-time.After(2 * time.Second):
+	}
+	return false, confirmations
+}
+
 func init() {
 	monitors["C18"] = func(r *rng, n int, res *MonitorResult) {
 		res.Rule = "the REAL SwapService with REAL watchers (BlockchainRpcTxWatcher over a scripted RPC; LWK electrum watcher over a scripted Electrum server), handlers run concurrently, every call under a 4 s watchdog: (a) both maker roles wait with their CSV watch registered, the CSV matures, then a cancel / an unusable coop_close / an invalid message arrives: handled, and the refund follows; (b) a block with which the CSV matures is handled while a cancel is handled (the node answers the message handler's query just before, the block handler's just after maturity): both return and the refund follows; (c) the same with the Electrum watcher on Liquid; distinct = distinct schedules"
@@ -174,6 +243,16 @@ func init() {
 				res.addFinding("C18/"+role+"/handlers-block-each-other/electrum-watcher", "header handler (holds the subscriber lock, calls into the swap) and message handler (holds the swap, registers an observer) wait for each other", map[string]interface{}{"role": role, "schedule": "header 2010081 being processed (observer asking the server) while a cancel is handled"})
 			} else if st != "State_ClaimedCsv" && st != "setup-failed" {
 				res.addFinding("C18/"+role+"/no-refund/electrum-watcher-concurrent", "both handlers returned but no refund followed: final "+st, map[string]interface{}{"role": role})
+			}
+		}
+		// (e) the real block dispatcher with a confirmation observer that is still busy when the next block arrives
+		{
+			ok, nconf := c18BusyObserver(1500 * time.Millisecond)
+			res.Evaluations++
+			res.Distinct++
+			res.Histogram[fmt.Sprintf("(e) csv reported=%v confirmations=%d", ok, nconf)]++
+			if !ok {
+				res.addFinding("C18/rpc-watcher/block-dispatch-blocked/busy-confirmation-observer", "after a block arrived while a confirmation callback was still running, the watcher handles no further block: the matured CSV of another swap is never reported", map[string]interface{}{"schedule": "block 800001 confirms the taker's opening tx (callback runs 1.5 s); block 800002 arrives 0.75 s later; blocks 800003.. make the maker's output 1008 deep"})
 			}
 		}
 		// (d) randomized concurrency: block notifications, peer messages and the payment notification race
